@@ -1,11 +1,11 @@
 def _g(d, pkg, extra=None):
-    return dict(dir=d, pkgname=pkg, files=["%s/c18_rig_test.go" % (d.split("/")[-1] or "root"), "%s/c18_test.go" % (d.split("/")[-1] or "root")],
+    return dict(dir=d, pkgname=pkg, files=["%s/c18_rig_test.go" % (d.split("/")[-1] or "root"), "%s/c18_test.go" % (d.split("/")[-1] or "root")] + (extra or []),
                 test="TestVerifC18", race=True, n_quick=1, n_thorough=1, shards_quick=1, shards_thorough=1,
                 timeout_quick=600, timeout_thorough=3000, v=True)
 
 SPEC = {
     "go": [
-        _g("", "ipfscluster"),
+        _g("", "ipfscluster", ["root/c18_shutdown_test.go"]),
         _g("pintracker/optracker", "optracker"),
         _g("pintracker/stateless", "stateless"),
         _g("monitor/metrics", "metrics"),
